@@ -71,6 +71,23 @@ Theorem C08_api_accept_first : forall s sh c m rest k', a_inv s ->
              lookup (ah (fst (a_step s (AAccept sh)))) (anext s) = Some (OR c).
 Proof. exact accept_returns_first. Qed.
 Print Assumptions C08_api_accept_first.
+
+(* a client that connected and went away without sending a message (no reference to the sending end left anywhere, nothing queued):
+   accept neither blocks nor panics - it reports 'disconnected', the server is consumed, its receiving end released, and the
+   invariant (hence: nothing stays behind once the remaining handles are dropped) goes on holding.  This is what every transport
+   has to answer; the in-process one did not before the twelfth fix *)
+Theorem C08_api_accept_departed_client : forall s sh c, a_inv s ->
+  lookup (ah s) sh = Some (OSrv c true) -> q (get_chan (ak s) c) = [] -> refs (ak s) (RS c) = 0 ->
+  snd (a_step s (AAccept sh)) = QDisconnected /\
+  lookup (ah (fst (a_step s (AAccept sh)))) sh = Some OGone /\
+  ak (fst (a_step s (AAccept sh))) = k_close (ak s) (RR c) /\
+  a_inv (fst (a_step s (AAccept sh))).
+Proof. exact accept_of_a_departed_client. Qed.
+Print Assumptions C08_api_accept_departed_client.
+
+Example C08_api_departed_ex :
+  snd (a_run a_init [AServer; AConnect 0; ADrop 1; AAccept 0]) = [QServer 0; QConnected 1; QDropped; QDisconnected].
+Proof. vm_compute. reflexivity. Qed.
 End ApiLevel.
 
 (* ---- the one-shot server of the in-process transport (model: InprocSrv.v - registry of server records, accept() statement by
